@@ -16,4 +16,7 @@ ExactlyOnceInOrder == IsPrefix(processed, Expected)
 Quiescent == sent = Len(Stream) /\ avail = <<>> /\ pc = "read" /\ NLIdx(input) = 0
 AllProcessed == (Quiescent /\ ~crashed) => processed = SelectSeq(Complete(Stream), LAMBDA ln : Len(ln) >= 3)
 LevelA == NoCrash /\ ExactlyOnceInOrder /\ AllProcessed
+\* liveness: if server and client keep taking their steps, every complete line ends up processed, and stays so
+FairSpec == Spec /\ WF_vars(Send) /\ WF_vars(ReadLine) /\ WF_vars(Process)
+EventuallyAllProcessed == <>[](crashed \/ processed = Expected)
 =============================================================================
